@@ -56,7 +56,7 @@ def hooks():
         X = args[0] if args else kws.get("X")
         if X is not None and X.tag("maybe_zero_rows"):
             I.emit("zero_rows_to_chroma", e, X=X)
-        elif X is not None and "B" in X.flat().data:
+        elif X is not None and ("B" in X.flat().data or X.tag("corner_cloud")):
             I.emit("chroma_of_targets", e, X=X)
 
     h.setdefault("pre", {})[BDR] = pre_bdr
@@ -102,7 +102,7 @@ def check(rep, an, tier):
                     # internal calls to estimator methods that take `relative`
                     for ev in res.events("call"):
                         fn = ev.d["callee"]
-                        if fn.cls and "relative" in fn.params and ev.fn.cls and len(ev.path) == 1:
+                        if fn.cls and "relative" in fn.params and ev.fn.cls and R.near(ev):
                             bound = dict(ev.d["kws"])
                             for i, a in enumerate(ev.d["args"]):
                                 if i + 1 < len(fn.params):
@@ -113,7 +113,7 @@ def check(rep, an, tier):
                                       construct=f"self.{fn.name}(…) in {meth}", entry=entry, config=cfg,
                                       msg=f"`{fn.name}` is called without forwarding `relative`: it uses its default (True) even for absolute captures")
                     if meth == "hull_dist_scaling":
-                        early = [ev for ev in res.events("call") if ev.d["callee"].name == "in_hull" and ev.d["callee"].cls and len(ev.path) == 1]
+                        early = [ev for ev in res.events("call") if ev.d["callee"].name == "in_hull" and ev.d["callee"].cls and R.near(ev)]
                         for ev in early:
                             nv = ev.d["kws"].get("normalized")
                             rep.check("R-FORWARD", "the early return uses the CHROMATIC membership test", nv is not None and nv.known and nv.const is True,
@@ -130,6 +130,7 @@ def check(rep, an, tier):
                     R.rule_type_errors(rep, res, "SHAPE", "R-SHAPE", entry)
                     R.rule_purity(rep, res, entry)
                     R.rule_effect_free(rep, res, entry)
+                    R.rule_dtype(rep, res, entry)
                     CC.membership_frames(rep, res, entry)
                     CC.corner_subset(rep, res, entry)
                     if meth == "hull_dist_scaling":
@@ -138,14 +139,7 @@ def check(rep, an, tier):
                         n = CC.dim1(rep, res, entry)
                     if meth == "hull_dist_scaling":
                         dist_structure(rep, res, entry, Fax)
-                        for ev in res.events("zero_rows_to_chroma"):
-                            rep.violated("R-ZERO", "all-zero rows never reach the chromatic reduction", where=ev.loc,
-                                         construct=f"{ev.text()} (reached via {' → '.join(q.split('.')[-1] for q in ev.path)})", entry=entry, config=cfg,
-                                         msg="targets that may contain all-zero rows (no chromaticity) are L1-normalised: the zero row is mapped "
-                                             "onto a simplex corner and decides the in-gamut test / the common factor")
-                        for ev in res.events("chroma_of_targets"):
-                            rep.holds("R-ZERO", "all-zero rows never reach the chromatic reduction", where=ev.loc, construct=ev.text(), entry=entry,
-                                      config=cfg, msg="zero rows were removed or replaced before the reduction")
+                        CC.zero_rows(rep, res, entry)
     rep.require("R-FORWARD", 20)
     rep.require("R-PURITY", 6)
     rep.require("R-SIGN", 2)
@@ -182,7 +176,7 @@ def dist_structure(rep, res, entry, Fax):
         else:
             rep.undecided("R-SIGN", "boundary multiple is positive-or-NaN", where=ev.loc, construct=ev.text(), entry=entry, config=res.config)
     # totals reused for the re-expansion come from the targets
-    calls = [ev for ev in res.events("call") if ev.d["callee"].name == "cartesian_to_barycentric" and len(ev.path) == 1]
+    calls = [ev for ev in res.events("call") if ev.d["callee"].name == "cartesian_to_barycentric" and R.near(ev)]
     for ev in calls:
         X0 = ev.d["args"][0] if ev.d["args"] else ev.d["kws"].get("X")
         if X0 is not None and X0.tag("bary"):
